@@ -141,6 +141,11 @@ fn table() -> Vec<(&'static str, Check)> {
         ("C03-call-undeclared", || c03("f(1);")),
         ("C03-redeclare-const", || c03("const int x = 1; const int x = 2;")),
         ("C03-int-literal-overflow", || c03("340282366920938463463374607431768211456;")),
+        ("C03-tuple-expr", || {
+            let (a, wa) = c03("int x; x = (());");
+            let (b, wb) = c03("int x; x = ();");
+            (a && b, format!("{wa}; {wb}"))
+        }),
         ("C03-array-expr", || c03("int x = [1, 2];")),
         ("C03-io-array", || c03("input array[int, 3] x;")),
         ("C03-array-literal", || c03("array[int, 2] a = {1, 2};")),
